@@ -4,7 +4,6 @@
 package c10
 
 import (
-	"fmt"
 	"math"
 	"strconv"
 	"strings"
@@ -77,22 +76,37 @@ func fnParsePrint() *run.Fn {
 	return &run.Fn{Name: nPP, Invoke: func(a []w.Val) w.Val {
 		o, err := object.NewExtendedSpatialID(w.AsStr(a[0]))
 		if err != nil {
-			return w.Err{V: w.Nil{}}
+			if o == nil {
+				return w.Err{V: w.Nil{}}
+			}
+			return w.Err{V: w.S(o.ID())} // the (zero) object returned together with the error
 		}
 		return w.L(w.S(o.ID()), w.L(w.I(o.HZoom()), w.I(o.X()), w.I(o.Y()), w.I(o.VZoom()), w.I(o.Z())), w.Ints(o.FieldParams()))
 	}}
 }
 
-// the expansion takes the object; the string is parsed by the library's own constructor. The call is not made (answer: false) when the
-// zooms are off the grid or more than 5 apart (the generators stay within 5, i.e. at most 4^5 results; only the shrinker proposes other inputs) — DC10.expand_guard.
+// the expansion takes the object; the string is parsed by the library's own constructor. The call is NOT made (answer: false) when the
+// parsed ID is not a valid ID of the grid (off-grid indices make the library's loops wrap around int64 or never end) or when the result
+// would exceed the caps (hZoom < vZoom: 4^d results, d <= 6; hZoom > vZoom: 2^d results, d <= 12). DC10.expand_guard recomputes the same
+// predicate and files such a case under class "skipped". The generators stay inside the caps; only the shrinker proposes other inputs.
+func expandRefused(o *object.ExtendedSpatialID) bool {
+	h, v := o.HZoom(), o.VZoom()
+	if h < 0 || h > 35 || v < 0 || v > 35 {
+		return true
+	}
+	wh, wv := int64(1)<<uint(h), int64(1)<<uint(v)
+	if o.X() < 0 || o.X() >= wh || o.Y() < 0 || o.Y() >= wh || o.Z() < -wv || o.Z() >= wv {
+		return true
+	}
+	return v-h > 6 || h-v > 12
+}
 func fnExpand() *run.Fn {
 	return &run.Fn{Name: nExpand, Invoke: func(a []w.Val) w.Val {
 		o, err := object.NewExtendedSpatialID(w.AsStr(a[0]))
 		if err != nil {
 			return w.Err{V: w.Nil{}}
 		}
-		h, v := o.HZoom(), o.VZoom()
-		if h < 0 || h > 35 || v < 0 || v > 35 || h-v > 5 || v-h > 5 {
+		if expandRefused(o) {
 			return w.B(false)
 		}
 		return w.Strs(transform.ConvertExtendedSpatialIDToSpatialIDs(o))
@@ -191,15 +205,9 @@ func fnSetters() *run.Fn {
 	}}
 }
 
-// one sub-call of a sequence; a panic of a sub-call is recorded in its position
-func subCall(f *run.Fn, a []w.Val) (res w.Val) {
-	defer func() {
-		if e := recover(); e != nil {
-			res = w.Panic{Msg: fmt.Sprint(e)}
-		}
-	}()
-	return f.Invoke(a)
-}
+// one sub-call of a sequence. A panic of a sub-call is not caught here: it ends the whole harness call, which the runner records as a
+// property failure (with shrinking), like a panic of a single call
+func subCall(f *run.Fn, a []w.Val) w.Val { return f.Invoke(a) }
 
 // ExpandSequence: ConvertExtendedSpatialIDToSpatialIDs on each ID of the list, consecutively, in one go; observed: the list of result lists
 func fnExpandSeq() *run.Fn {
@@ -246,6 +254,16 @@ func field(g *Gen, n int64, plain bool) string {
 	}
 	neg := strings.HasPrefix(s, "-")
 	digits := strings.TrimPrefix(s, "-")
+	if g.Chance(0.08) { // more than 19 characters that still fit: 20..30 leading zeros
+		z := strings.Repeat("0", 20+g.Intn(11)) + digits
+		if neg {
+			return "-" + z
+		}
+		if g.Chance(0.3) {
+			return "+" + z
+		}
+		return z
+	}
 	switch g.Intn(4) {
 	case 0:
 		if !neg {
@@ -304,19 +322,74 @@ func zoomPair(g *Gen, maxDiff int64) (int64, int64) {
 	v := clampZoom(h + g.Int63n(2*maxDiff+1) - maxDiff)
 	return h, v
 }
-func expandPair(g *Gen) (int64, int64) {
-	h := g.Zoom()
-	d := g.Int63n(11) - 5
-	if g.Chance(0.15) {
-		d = 0
+// expandPair: zoom pairs inside the caps of the expansion entry. d = v - h: horizontal raise 1..6 (4^d results; 6 is rare), vertical raise
+// 1..12 (2^d results; above 8 rare); h is then drawn so that both zooms stay in 0..35 (no folding by clamping)
+func expandDiff(g *Gen) int64 {
+	switch k := g.Intn(100); {
+	case k < 12:
+		return 0
+	case k < 50: // horizontal raise
+		switch j := g.Intn(40); {
+		case j < 1:
+			return 6
+		case j < 5:
+			return 5
+		}
+		return 1 + g.Int63n(4)
 	}
-	v := clampZoom(h + d)
-	return h, v
+	switch j := g.Intn(20); { // vertical raise
+	case j < 2:
+		return -(9 + g.Int63n(4))
+	case j < 6:
+		return -(6 + g.Int63n(3))
+	}
+	return -(1 + g.Int63n(5))
+}
+func pairWithDiff(g *Gen, d int64) (int64, int64) {
+	// v = h + d with both in 0..35
+	lo, hi := int64(0), int64(35)
+	if d > 0 {
+		hi = 35 - d
+	} else {
+		lo = -d
+	}
+	h := lo + g.Int63n(hi-lo+1)
+	if g.Chance(0.3) {
+		h = g.Pick(lo, hi, lo+(hi-lo)/2, hi-1)
+		if h < lo {
+			h = lo
+		}
+	}
+	return h, h + d
+}
+func expandPair(g *Gen) (int64, int64) { return pairWithDiff(g, expandDiff(g)) }
+
+// relatedVZoom: another vertical zoom for the tile at horizontal zoom h, inside the caps
+func relatedVZoom(g *Gen, h int64) int64 {
+	for {
+		d := expandDiff(g)
+		if v := h + d; v >= 0 && v <= 35 {
+			return v
+		}
+	}
+}
+
+// relatedHZoom: another horizontal zoom for the vertical zoom v, inside the caps
+func relatedHZoom(g *Gen, v int64) int64 {
+	for {
+		d := expandDiff(g)
+		if h := v - d; h >= 0 && h <= 35 {
+			return h
+		}
+	}
 }
 
 // strings with the wrong shape: wrong arity 0..7 fields, empty fields, spaces, non-ASCII, 20-digit overflow
 var junkFields = []string{"", " ", "x", "1 ", " 1", "1.5", "0x10", "９", "1e2", "--1", "+", "-", "+-1", "92233720368547758070", "-92233720368547758080",
-	"1_0", "١", "é", "\t3", "3\n", "NaN", "9223372036854775808"}
+	"1_0", "١", "é", "\t3", "3\n", "NaN", "9223372036854775808",
+	// overflow followed by junk: strconv saturates at the overflowing digit without reading on; inside uint64 it reads on and reports syntax
+	"99999999999999999999x", "-99999999999999999999 ", "18446744073709551616_", "18446744073709551615x", "9223372036854775808x",
+	"+99999999999999999999+", "0000000000000000000018446744073709551616x", "-18446744073709551616-", "-9223372036854775809", "18446744073709551615"}
 
 func arityString(g *Gen, n int) string {
 	fs := make([]string, n)
@@ -374,11 +447,14 @@ func arity(s string) int { return len(strings.Split(s, "/")) }
 // a list of 0..8 spatial IDs (or extended IDs), with duplicates; malformed entries mixed in at random positions with probability pm
 func idList(g *Gen, extended bool, pm float64, plain bool) (l []string, tags []string) {
 	n := g.Intn(9)
+	if g.Chance(0.04) { // "lists of any length": now and then a long one
+		n = 20 + g.Intn(300)
+	}
 	want := 4
 	if extended {
 		want = 5
 	}
-	badArity, badField := false, false
+	badArity, badField, offGrid := false, false, false
 	for i := 0; i < n; i++ {
 		var s string
 		switch {
@@ -391,6 +467,18 @@ func idList(g *Gen, extended bool, pm float64, plain bool) (l []string, tags []s
 			}
 		case len(l) > 0 && g.Chance(0.2):
 			s = l[g.Intn(len(l))]
+		case g.Chance(0.05): // well-formed numbers off the grid (zoom 36.., x = 2^z, negative x, huge f): the conversions make no numeric check
+			e := anyInt64EID(g)
+			if g.Chance(0.5) {
+				z := 36 + g.Int63n(30)
+				e = eid{z, int64(1) << uint(z%62), -g.Int63n(9), z, int64Edge(g)}
+			}
+			if extended {
+				s = e.str(g, plain)
+			} else {
+				s = sidStr(g, e.h, e.f, e.x, e.y, plain)
+			}
+			offGrid = true
 		case extended:
 			h, v := zoomPair(g, 6)
 			s = validEID(g, h, v).str(g, plain)
@@ -400,7 +488,14 @@ func idList(g *Gen, extended bool, pm float64, plain bool) (l []string, tags []s
 		}
 		l = append(l, s)
 	}
-	tags = append(tags, Tag("len=%d", n))
+	if n <= 8 {
+		tags = append(tags, Tag("len=%d", n))
+	} else {
+		tags = append(tags, "len>=20")
+	}
+	if offGrid {
+		tags = append(tags, "well-formed off the grid")
+	}
 	if badArity {
 		tags = append(tags, "malformed:arity")
 	}
@@ -505,7 +600,7 @@ func caseConv(g *Gen, extended bool) run.Case {
 	if g.Chance(0.2) {
 		pm = 0.3
 	}
-	l, tags := idList(g, extended, pm, g.Chance(0.5))
+	l, tags := idList(g, extended, pm, g.Chance(0.3))
 	fn := nS2E
 	if extended {
 		fn = nE2S
@@ -518,7 +613,7 @@ func caseRoundTrip(g *Gen) run.Case {
 	if g.Chance(0.15) {
 		pm = 0.3
 	}
-	l, tags := idList(g, !dir, pm, g.Chance(0.5))
+	l, tags := idList(g, !dir, pm, g.Chance(0.3))
 	if dir {
 		tags = append(tags, "dir=s->e->s")
 	} else {
@@ -559,11 +654,20 @@ func voxelArg(g *Gen) (string, []string) {
 	switch {
 	case g.Chance(0.03): // fewer than five fields: the function returns the empty slice
 		return arityString(g, g.Intn(5)), []string{"short-input(empty result)"}
-	case g.Chance(0.05): // five or more fields with unparsable / overflowing fields: errors are discarded by the function
+	case g.Chance(0.12): // five or more fields with unparsable / overflowing fields: the function discards the strconv errors
 		n := 5 + g.Intn(3)
-		return arityString(g, n), []string{"malformed:>=5 fields"}
+		fs := strings.Split(arityString(g, n), "/")
+		for _, k := range []int{1, 2, 4} { // the three fields the function reads
+			if g.Chance(0.5) {
+				fs[k] = junkFields[g.Intn(len(junkFields))]
+			}
+		}
+		return strings.Join(fs, "/"), []string{"malformed:>=5 fields"}
 	case g.Chance(0.2):
 		return anyInt64EID(g).str(g, false), []string{"int64-fields"}
+	case g.Chance(0.25):
+		e := wideEID(g)
+		return e.str(g, false), append(zoomTags(e.h, e.v), "wide-fields(x|y>=2^31)")
 	}
 	h, v := zoomPair(g, 35)
 	return validEID(g, h, v).str(g, false), zoomTags(h, v)
@@ -588,7 +692,7 @@ func caseExpandSeq(g *Gen) run.Case {
 		switch kind {
 		case 0: // same (h, x, y), another vertical zoom and index
 			e = base
-			e.v = clampZoom(base.h + g.Int63n(11) - 5)
+			e.v = relatedVZoom(g, base.h)
 			e.f = g.VIndex(e.v)
 		case 1: // same vertical cell, another tile
 			e = base
@@ -596,13 +700,13 @@ func caseExpandSeq(g *Gen) run.Case {
 		case 2: // identical ID again
 		case 3: // same tile and vertical zoom, another horizontal zoom (same x, y numbers when they fit)
 			e = base
-			e.h = clampZoom(base.v + g.Int63n(11) - 5)
+			e.h = relatedHZoom(g, base.v)
 			m := int64(1) << uint(e.h)
 			e.x, e.y = base.x%m, base.y%m
 		default: // mixture
 			switch g.Intn(3) {
 			case 0:
-				e.v = clampZoom(e.h + g.Int63n(11) - 5)
+				e.v = relatedVZoom(g, e.h)
 				e.f = g.VIndex(e.v)
 			case 1:
 				e.x = g.HIndex(e.h)
@@ -750,7 +854,7 @@ func caseCallSeq(g *Gen) run.Case {
 		if g.Chance(0.2) {
 			pm = 0.25
 		}
-		l, _ := idList(g, ext, pm, g.Chance(0.5))
+		l, _ := idList(g, ext, pm, g.Chance(0.3))
 		for len(l) < 2 {
 			more, _ := idList(g, ext, 0, true)
 			l = append(l, more...)
@@ -792,7 +896,7 @@ func caseCallSeq(g *Gen) run.Case {
 		h, v := expandPair(g)
 		e := validEID(g, h, v)
 		e2 := e
-		e2.v = clampZoom(e.h + g.Int63n(11) - 5)
+		e2.v = relatedVZoom(g, e.h)
 		e2.f = g.VIndex(e2.v)
 		s1, s2 := e.str(g, true), e2.str(g, true)
 		calls = append(calls, call(nExpand, w.S(s1)), call(nVoxel, w.S(s1)), call(nExpand, w.S(s2)), call(nVoxel, w.S(s2)),
@@ -802,7 +906,7 @@ func caseCallSeq(g *Gen) run.Case {
 }
 
 func init() {
-	Scale["C10"] = 12000
+	Scale["C10"] = 10000
 	Registry["C10"] = func(r *run.Runner, g *Gen, n int) {
 		base := map[string]*run.Fn{}
 		for _, f := range []*run.Fn{fnS2E(), fnE2S(), fnRoundTrip(), fnParsePrint(), fnExpand(), fnVoxel(), fnResetSeq(), fnSetters()} {
